@@ -1,6 +1,6 @@
 //! Family "queue": histories on a real QueuingMetricSink (real threads, real crossbeam) around a gated
 //! wrapped sink. case syntax:  cap=<n|u>;ops=<op,op,...>;out=<o|e|p,...>
-//!   ops: e<h> emit on handle h | c<h> clone handle h | d<h> drop handle h | r let the wrapped sink finish one metric
+//!   ops: e<h> emit on handle h | z<h> emit a zero-length metric on handle h | c<h> clone handle h | d<h> drop handle h | r let the wrapped sink finish one metric
 //!   out: outcome of the wrapped sink for the k-th metric it is handed: o = Ok, z = Ok(0), e = Err(TimedOut), i = Err(Interrupted), p = panic
 //! At the end every remaining gate is opened, every handle dropped, and the wrapped sink must be dropped.
 use crate::rng::Rng;
@@ -197,8 +197,9 @@ fn check_inner(c: &Case) -> Vec<(String, String)> {
     let wait_enter = |entered: &mut Vec<String>| -> bool { match erx.recv_timeout(Duration::from_secs(10)) { Ok(m) => { entered.push(m); true } Err(_) => false } };
     for (op, h) in c.ops.iter() {
         match op {
-            'e' => {
-                let m = format!("m{}:1|c", n); n += 1;
+            'e' | 'z' => {
+                // 'z': a zero-length metric (a metric like any other for the queuing sink)
+                let m = if *op == 'z' { String::new() } else { format!("m{}:1|c", n) }; n += 1;
                 let hd = match handles.get(*h).and_then(|x| x.as_ref()) { Some(x) => x, None => continue };
                 let t0 = std::time::Instant::now();
                 let r = hd.emit(&m);
@@ -306,6 +307,7 @@ pub fn search(prop: &str, seed: u64, budget: u64) -> Option<(String, Vec<(String
                 0 => { ops.push(('c', rng.below(nh as u64) as usize)); nh += 1; }
                 1 => ops.push(('d', rng.below(nh as u64) as usize)),
                 2 | 3 => ops.push(('r', 0)),
+                4 => ops.push((if rng.below(3) == 0 { 'z' } else { 'e' }, rng.below(nh as u64) as usize)),
                 _ => ops.push(('e', rng.below(nh as u64) as usize)),
             }
         }
